@@ -426,7 +426,14 @@ def predicates(case):
 
     rnd = random.Random(case["gen_seed"])
     viol, seen = [], collections.Counter()
-    n = 0
+    n = nan_examples = 0
+
+    def outcome(f, *a, **k):
+        try:
+            return bool(f(*a, **k))
+        except (AssertionError, ValueError, TypeError) as err:
+            return "raises " + type(err).__name__
+
     for e in range(case["examples"]):
         for inc_f in (False, True):
             for inc_p in (False, True):
@@ -436,12 +443,16 @@ def predicates(case):
                 v = [rnd.choice(pool) for _ in range(6)]
                 if rnd.random() < 0.3:
                     v[3:] = v[:3]
+                if rnd.random() < 0.15:
+                    # a quantity the class produces itself: supplied / demanded in a month with neither is 0/0
+                    v[rnd.randrange(6)] = float("nan")
+                    nan_examples += 1
                 a, b = Food(v[0], v[1], v[2]), Food(v[3], v[4], v[5])
                 A = Food(np.array([v[0]]), np.array([v[1]]), np.array([v[2]]))
                 B = Food(np.array([v[3]]), np.array([v[4]]), np.array([v[5]]))
                 for p in PREDICATES2:
                     n += 1
-                    s, m = bool(getattr(a, p)(b)), bool(getattr(A, p)(B))
+                    s, m = outcome(getattr(a, p), b), outcome(getattr(A, p), B)
                     if s != m:
                         seen[p] += 1
                         if seen[p] <= 1:
@@ -450,7 +461,7 @@ def predicates(case):
                                          "data": {"predicate": p, "a": v[:3], "b": v[3:], "include_fat": inc_f, "include_protein": inc_p}})
                 for p in PREDICATES1:
                     n += 1
-                    s, m = bool(getattr(a, p)()), bool(getattr(A, p)())
+                    s, m = outcome(getattr(a, p)), outcome(getattr(A, p))
                     if s != m:
                         seen[p] += 1
                         if seen[p] <= 1:
@@ -460,14 +471,14 @@ def predicates(case):
                 # the predicates that take a tolerance, with non-default values of it
                 for p, kw in (("all_equals_zero", {"rounding_decimals": rnd.choice([9, 6, 3, 0])}), ("all_greater_than_or_equal_to_zero", {"threshold": rnd.choice([0, 1e-9, 1e-3, 1.0])})):
                     n += 1
-                    s_, m_ = bool(getattr(a, p)(**kw)), bool(getattr(A, p)(**kw))
+                    s_, m_ = outcome(getattr(a, p), **kw), outcome(getattr(A, p), **kw)
                     if s_ != m_:
                         seen[p + "(arg)"] += 1
                         if seen[p + "(arg)"] <= 1:
                             viol.append({"mech": "predicate_scalar_vs_one_month_series_disagree:" + p,
                                          "msg": "%s(%s): scalar %s -> %s, one-month series -> %s with include_fat=%s include_protein=%s" % (p, kw, v[:3], s_, m_, inc_f, inc_p),
                                          "data": {"predicate": p, "a": v[:3], "kwargs": kw, "include_fat": inc_f, "include_protein": inc_p}})
-    return {"viol": viol, "obs": {"predicates": True, "comparisons": n, "viol_counts": dict(seen)}}
+    return {"viol": viol, "obs": {"predicates": True, "comparisons": n, "examples_with_a_nan": nan_examples, "viol_counts": dict(seen)}}
 
 
 def run_case(case, tier):
